@@ -12,8 +12,8 @@ COQ_PROPERTY_FILE = "Properties/C16.v"
 COQ_DEPS = ["Common/ListX.v", "Common/ObsHash.v", "Generated/Tables.v", "Model/Signals.v", "Proofs/SignalsProofs.v",
             "Proofs/SignalsBridge.v"]
 COQ_IMPORTS = "From Mesa Require Import Generated.Tables Model.Signals."
-COQ_CASE_TYPE = "case"
-COQ_RUN = "run_case"
+COQ_CASE_TYPE = "anycase"
+COQ_RUN = "run_any"
 TABLE_CONSTRUCTS = ["sig_tables", "dg_shadowing", "sig_observe_code", "sig_unobserve_code", "sig_clear_code",
                     "sig_mesa_notify_code", "sl_setitem_code", "sl_delitem_code", "sl_insert_code", "sl_append_code",
                     "signals_glue", "ms_pop_code", "ms_pop_default", "ms_remove_code", "ms_extend_code", "ms_iadd_code",
@@ -293,8 +293,29 @@ def _gen_history(rng, nops, dup_stream=False, force_mixed=False):
     return case
 
 
+def _gen_reentrant(rng):
+    """handlers that observe / unobserve on the (name, type) being notified - outside the property's quantifier:
+    correspondence with Model/Signals.v:notify_re only, the oracle is silent on these"""
+    hs = list(range(1, rng.randint(3, 5) + 1))
+    script = {}
+    for h in hs:
+        r = rng.random()
+        if r < 0.45:
+            continue
+        script[h] = ["unobs", rng.choice(hs)]
+    for h in hs:                       # a few subscribe somebody whose own action is not another subscription
+        if h not in script and rng.random() < 0.35:
+            script[h] = ["obs", rng.choice([x for x in hs if x not in script or script[x][0] != "obs"] or [h])]
+            if script[h][1] == h:
+                del script[h]
+    subs = [h for h in hs if rng.random() < 0.7] or [hs[0]]
+    rng.shuffle(subs)
+    return {"re": {"subs": subs, "script": [[h, a, t] for h, (a, t) in sorted(script.items())]},
+            "ops": [["round"] for _ in range(rng.randint(2, 4))]}
+
+
 def gen_cases(rng, tier):
-    cases = []
+    cases = [_gen_reentrant(rng) for _ in range(40 if tier == "quick" else 400)]
     # the corner cases the quantifier names, always: All in either position on mixed classes, both declaration orders
     for order in (("obs", "list"), ("list", "obs")):
         for where in (("sub", "sub"), ("base", "sub"), ("sub", "base")):
@@ -592,7 +613,47 @@ def _hid_of(h):
     return getattr(h, "_hid", -1)
 
 
+def _run_reentrant(case):
+    from mesa.experimental.mesa_signals import HasObservables, Observable
+
+    class R(HasObservables):
+        x = Observable()
+
+    obj = R()
+    obj.x = 0
+    calls, handlers = [], {}
+    script = {h: (a, t) for h, a, t in case["re"]["script"]}
+    ids = set(case["re"]["subs"]) | set(script) | {t for _, t in script.values()}
+
+    def mk(h):
+        def f(signal):
+            calls.append(h)
+            a, t = script.get(h, ("nop", 0))
+            if a == "obs":
+                obj.observe("x", "change", handlers[t])
+            elif a == "unobs":
+                obj.unobserve("x", "change", handlers[t])
+        f._hid = h
+        return f
+    for h in ids:
+        handlers[h] = mk(h)
+    for h in case["re"]["subs"]:
+        obj.observe("x", "change", handlers[h])
+    obs = []
+    for i, _ in enumerate(case["ops"]):
+        del calls[:]
+        if sum(1 for _ in obj.subscribers["x"]["change"]) > 150:
+            obs.append([-3])
+            break
+        obj.x = i + 1
+        reg = [r()._hid for r in obj.subscribers["x"]["change"] if r() is not None]
+        obs.append(list(calls) + [-7] + reg)
+    return {"obs": obs, "failures": []}
+
+
 def run_impl(case):
+    if "re" in case:
+        return _run_reentrant(case)
     import gc
     import weakref
 
@@ -1047,7 +1108,19 @@ def _mro(case):
     return L.lst([L.lst(sub), L.lst(base)])
 
 
+def _haction(a, t):
+    return {"obs": f"HObserve {L.z(t)}", "unobs": f"HUnobserve {L.z(t)}"}.get(a, "HNop")
+
+
 def coq_case(case):
+    if "re" in case:
+        sc = L.lst([L.pair(L.z(h), _haction(a, t)) for h, a, t in case["re"]["script"]])
+        return (f"Reentrant {{| rc_subs := {L.zlist(case['re']['subs'])}; rc_script := {sc}; "
+                f"rc_rounds := {len(case['ops'])} |}}")
+    return "Plain " + _coq_plain(case)
+
+
+def _coq_plain(case):
     decl = case["decl"]
     insts = L.lst([L.lst([_slot(d, v) for d, v in zip(decl, row)]) for row in case["init"]])
     groups = {}
@@ -1076,6 +1149,8 @@ def coq_case(case):
 
 
 def op_kinds(case):
+    if "re" in case:
+        return ["reentrant-round"] * len(case["ops"])
     out = []
     for op in case["ops"]:
         if op[0] == "lop":
@@ -1088,6 +1163,8 @@ def op_kinds(case):
 
 
 def nontrivial(case):
+    if "re" in case:
+        return len(case["ops"]) >= 2 and bool(case["re"]["script"])
     n = 0
     for o in case.get("_obs", []):
         if len(o) > 2 and o[0] == 0:
